@@ -64,7 +64,20 @@ func BuildCommitMessageMap(messages []CommitMessage, infos map[string]ProjectInf
 	timeFormat := "2006-01-02"
 
 	for _, commitMessage := range messages {
+		// moves first: a path re-created in the same commit must not be taken for the file that was moved away
+		var changes []FileChange
 		for _, change := range commitMessage.Changes {
+			if complexMoveReg.MatchString(change.File) || basicMvReg.MatchString(change.File) {
+				changes = append(changes, change)
+			}
+		}
+		for _, change := range commitMessage.Changes {
+			if !complexMoveReg.MatchString(change.File) && !basicMvReg.MatchString(change.File) {
+				changes = append(changes, change)
+			}
+		}
+
+		for _, change := range changes {
 			fileName := change.File
 			if complexMoveReg.MatchString(fileName) {
 				infos, fileName = handleMoveInDirectory(infos, fileName)
